@@ -97,7 +97,7 @@ def _infer_one(R, table, flavour, enc, inner):
         df["end"] = [b[2] for b in bins]
         df = df.copy()
         R.cls("enc:edited-binnify")
-    elif enc == "object":
+    elif enc.startswith("object"):
         chrom = pd.Series([b[0] for b in bins], dtype=object)
     elif enc == "categorical":
         chrom = pd.Categorical([b[0] for b in bins], categories=names, ordered=True)
@@ -105,6 +105,15 @@ def _infer_one(R, table, flavour, enc, inner):
         chrom = np.array([names.index(b[0]) for b in bins], dtype=np.int32)
     if enc != "edited-binnify":
         df = pd.DataFrame({"chrom": chrom, "start": [b[1] for b in bins], "end": [b[2] for b in bins]})
+    if enc == "object:index-restarts-per-chromosome":
+        # row labels as pd.concat of per-chromosome tables without ignore_index gives them: 0,1,2,0,1,...
+        df = df.set_axis([k for c in table for k in range(len(c))])
+        R.cls("enc:non-unique-index")
+    elif enc == "object:index-all-equal":
+        df = df.set_axis([0] * len(df))
+        R.cls("enc:non-unique-index")
+    elif enc == "object:index-reversed":
+        df = df.set_axis(list(range(len(df) - 1, -1, -1)))
     if enc == "int":
         bins = [(names.index(c), s, e) for c, s, e in bins]
     R.ev(1, 1 if len(bins) > 1 else 0)
@@ -287,7 +296,7 @@ def run(unit, R, tier, only=None):
         k = 0
         for t in tabs:
             for flavour in ("abc", "chr"):
-                for enc in ("object", "categorical", "int", "edited-binnify"):
+                for enc in ("object", "categorical", "int", "edited-binnify", "object:index-restarts-per-chromosome", "object:index-all-equal", "object:index-reversed"):
                     k += 1
                     inner = {"table": [list(c) for c in t], "names": flavour, "enc": enc}
                     if only is not None and only != inner:
